@@ -6,17 +6,10 @@
 //! (`Model/CompileCheck.lean`, soundness: `Thm/C08.lean`):
 //!
 //!   J compiled   <ctx[:descriptor kind]> <policy> <ast> <annotations>
-//!   J ctxfrag    <ctx[:descriptor kind]> <policy> <ast>            (Bare/Legacy: `d:`/`or_i` permission)
 //!   J compiledtr <entry> <policy> <internal key id | UNSPENDABLE> <leaf;leaf;…|-> <annotations>
 //!   J reparse    <target> <policy> <printed output> <verdict>      (verdict computed here)
-//!   J reparse-frag …   the same line, when the library's rejection reason is IllegalOrI / IllegalDupIf
-//!   J nopanic compile <entry>:<digest of the panic message> <entry-key option> <policy> PANIC
+//!   J nopanic compile <entry> <policy> <digest of the panic message> PANIC
 //!   C sane       <ctx> <ast>                                       (model of validate(Ctx::SANE))
-//!
-//! `ctxfrag` / `reparse-frag` / `nopanic` carry the KNOWN defects of the current tree (see
-//! known_findings.txt): their failing lines are emitted at most `KNOWN_CLASS_CAP` times per
-//! target and counted beyond that, so that they cannot crowd a new failure out of bin/check's
-//! list of the first 1000 mismatches.
 //!
 //! Policies are built over the table keys (`full_key(i)`, `xonly_key(200+i)`), table hashes
 //! and small lock values by direct enum construction.  Every compile call runs under
@@ -179,41 +172,9 @@ struct Run<'a> {
     programs: u64,
     slowest_ms: u128,
     slowest: String,
-    /// failing lines already emitted per KNOWN defect class (op + target / panic digest)
-    known_class: std::collections::BTreeMap<String, usize>,
-}
-
-/// at most this many FAILING lines are emitted per known defect class and target (bin/check
-/// keeps only the first 1000 mismatches: a flood of one known defect must not hide a new one);
-/// the rest are counted in the statistics
-const KNOWN_CLASS_CAP: usize = 12;
-
-fn has_if_perm_frag(n: &Node) -> bool {
-    use Node::*;
-    match n {
-        OrI(..) | DupIf(..) => true,
-        Alt(x) | Swap(x) | Check(x) | Verify(x) | NonZero(x) | ZeroNotEqual(x) => has_if_perm_frag(x),
-        AndV(a, b) | AndB(a, b) | OrB(a, b) | OrD(a, b) | OrC(a, b) => has_if_perm_frag(a) || has_if_perm_frag(b),
-        AndOr(a, b, c) => has_if_perm_frag(a) || has_if_perm_frag(b) || has_if_perm_frag(c),
-        Thresh(_, xs) => xs.iter().any(has_if_perm_frag),
-        _ => false,
-    }
 }
 
 impl<'a> Run<'a> {
-    /// emit a line of a known defect class; failing ones only up to the cap
-    fn line_known_class(&mut self, class: &str, failing: bool, op: &str, ans: &str) {
-        if failing {
-            let c = self.known_class.entry(class.to_string()).or_insert(0);
-            if *c >= KNOWN_CLASS_CAP {
-                self.out.count(&format!("known-class failing line counted, not emitted: {}", class));
-                return;
-            }
-            *c += 1;
-        }
-        self.out.line(op, ans);
-    }
-
     fn timed<T>(&mut self, what: &str, pw: &str, f: impl FnOnce() -> T) -> Option<T> {
         let t0 = Instant::now();
         let r = guard_msg(f);
@@ -224,10 +185,7 @@ impl<'a> Run<'a> {
             Ok(x) => Some(x),
             Err(msg) => {
                 // the compiler did not return at all: reported through the generic no-panic judge
-                // (entry point without the key option + digest of the panic message, then the input)
-                let entry = what.split('-').next().unwrap_or(what);
-                let class = format!("nopanic {}:{}", entry, msg);
-                self.line_known_class(&class, true, &format!("J nopanic compile {}:{} {} {} PANIC", entry, msg, what, pw), "ok");
+                self.out.line(&format!("J nopanic compile {} {} {} PANIC", what, pw, msg), "ok");
                 None
             }
         }
@@ -244,10 +202,6 @@ impl<'a> Run<'a> {
         self.programs += 1;
         node.count_frags(self.out);
         self.out.line(&format!("J compiled {} {} {} {}", target, pw, node.wire(), ann.join(";")), "ok");
-        if matches!(ctx, CtxK::Bare | CtxK::Legacy) {
-            let failing = has_if_perm_frag(&node);
-            self.line_known_class(&format!("ctxfrag {}", target), failing, &format!("J ctxfrag {} {} {}", target, pw, node.wire()), "ok");
-        }
         // re-parse from the own string form under the default (sane) rules
         let s = ms.to_string();
         let verdict = match guard(|| parse(&s)) {
@@ -265,13 +219,8 @@ impl<'a> Run<'a> {
         };
         // independent of the textual route: the validation the descriptor constructors rely on
         let sane = if ms.validate(&Ctx::SANE).is_ok() { "sane" } else { "insane" };
-        // rejections for the one reason `ctxfrag` already reports get their own op name
-        let op = if verdict.ends_with("/IllegalOrI") || verdict.ends_with("/IllegalDupIf") { "reparse-frag" } else { "reparse" };
-        if op == "reparse-frag" {
-            self.line_known_class(&format!("reparse-frag {}", target), true, &format!("J {} {} {} {} {}/{}", op, target, pw, s, verdict, sane), "ok");
-        } else {
-            self.out.line(&format!("J {} {} {} {} {}/{}", op, target, pw, s, verdict, sane), "ok");
-        }
+        let _ = ctx;
+        self.out.line(&format!("J reparse {} {} {} {}/{}", target, pw, s, verdict, sane), "ok");
     }
 
     fn judge_tr(&mut self, entry: &str, pw: &str, desc: &Descriptor<PublicKey>) {
@@ -336,8 +285,7 @@ impl<'a> Run<'a> {
                 Some(Err(e)) => format!("rejected:{}", err_kind2(&e)),
                 Some(Ok(back)) => if back.to_string() != s { "different-string".into() } else if back != *desc { "not-eq".into() } else { "same".into() },
             };
-            let op = if verdict.ends_with("/IllegalOrI") || verdict.ends_with("/IllegalDupIf") { "reparse-frag" } else { "reparse" };
-            self.out.line(&format!("J {} desc-{} {} {} {}/sane", op, kind, pw, s, verdict), "ok");
+            self.out.line(&format!("J reparse desc-{} {} {} {}/sane", kind, pw, s, verdict), "ok");
         }
     }
 
@@ -553,7 +501,7 @@ pub fn run(out: &mut Out, thorough: bool, seed: u64) {
         for t in nodes { with_ctx!(ctx, sane_line(out, ctx, &t.node)); }
     }
 
-    let mut run = Run { out, programs: 0, slowest_ms: 0, slowest: String::new(), known_class: Default::default() };
+    let mut run = Run { out, programs: 0, slowest_ms: 0, slowest: String::new() };
     let mut n_pol = 0u64;
     let mut seen: BTreeSet<String> = BTreeSet::new();
     let t_start = Instant::now();
